@@ -4,7 +4,7 @@ SPEC = dict(
     harness=['h_poly.c', 'h_poly_ext.c'],
     # the default (double) build runs the full harness; the other two real widths run a compact type-generic companion
     configs=lambda tier: [dict(name='f64'), dict(name='f32', real=4, harness=['h_poly_w.c']), dict(name='f80', real=16, harness=['h_poly_w.c']),
-                          dict(name='cxx', harness=['h_cxxw.c', 'h_cxxw_shim.cc'], hflags=['-DVF_CXXW=15'])],
+                          dict(name='cxx', harness=['h_cxxw.c', 'h_cxxw_shim.cc'], hflags=['-DVF_CXXW=15'], nworkers=4)],
     parallel_configs=4,
     workers={'quick': 12, 'thorough': 36},
     level='exploration',
